@@ -58,6 +58,8 @@ pub const CURATED: &[(&str, &str, &str, &str, &str, bool, bool)] = &[
     ("unmod+shift", "lsft", "(unmod x)", "(unshift y)", "", false, false),
     ("fork+switch", "lsft", "(fork x y (lsft))", "(switch ((and lsft (not b))) z break () x break)", "", false, false),
     ("mouse", "(mwheel-up 3 120)", "(movemouse-accel-down 2 6 1 5)", "mlft", "", false, false),
+    // continuous mouse actions listed BEFORE / AFTER a button inside one multi: releasing the key must stop all of them
+    ("mouse-multi", "(multi (mwheel-up 3 120) mlft)", "(multi (movemouse-left 2 1) mrgt x)", "(multi mmid (mwheel-left 2 120) (movemouse-up 2 1))", "", false, false),
     ("mouse-smooth", "(movemouse-up 2 1)", "(movemouse-left 2 1)", "(movemouse-speed 200)", "movemouse-smooth-diagonals yes", false, false),
     ("rpt+th", "(tap-hold 5 5 x lsft)", "rpt", "rpt-any", "", false, false),
     ("rel-key", "lsft", "(multi x (release-key lsft))", "(multi (layer-while-held nav) (release-layer nav))", "", false, false),
